@@ -151,6 +151,7 @@ def run(ses):
         vs = [('some', a), ('none', 'none')]
         for f, ak in vs: jobs.append(((job_local if p in LOCAL else job_public), (p, f, ak)))
     jobs.append((kani.job_le64, ()))
+    if ses.tier == 'thorough': jobs.append((kani.job_pae, ()))
     jobs += upper.spec_jobs(ses.tier)
     run_jobs(ses, jobs)
     ses.trusted_base = TRUSTED
